@@ -26,7 +26,7 @@ MON_INV = {
             "M_C13_AllRunners", "M_C13_AfterReady", "M_C09_NoPanic", "C12_Runners"],
     "C14": ["M_WellFormed", "C14_WaitsAll", "M_C14_ClosedAll"],
 }
-MON_PROPS = {"C12": ["M_C12_ProcsComplete"], "C13": [], "C14": []}
+MON_PROPS = {"C12": ["M_C12_ProcsComplete"], "C13": [], "C14": ["M_C14_Isolation"]}
 MC_INITS = {
     ("C12", "quick"): [("InitProcs", 3), ("InitLoaders", 3)],
     ("C12", "thorough"): [("InitProcs", 4), ("InitLoaders", 4), ("InitRunners", 3)],
